@@ -485,7 +485,7 @@ class C15(Prop):
   props_modules = ['PgProps.C15']
   driver = 'drv_c15'
   translators = [t_c15.run]
-  case_timeout_s = 60
+  case_timeout_s = 600      # a case replays O(N^2) events; the machine may be heavily shared
   jobs_quick = 6
   jobs_thorough = 6
   rule = ('algorithm configuration drawn from {Sweeping, Random(seed), Random(), Deduping over them (default '
@@ -493,7 +493,7 @@ class C15(Prop):
           'hash function), Evolution with a deterministic reproduction (1-3 children per generation) and '
           'population update (none / last n / top n) over a Sweeping / Random / Deduping initialiser with or '
           'without initial size, Deduping over Evolution, and the real regularized_evolution / hill_climb / '
-          'nsga2 (+ Deduping over them; oracle only)}; spaces of 3-24 points; runs of 0-40 (thorough: 80) events '
+          'nsga2 (+ Deduping over them; oracle only)}; spaces of 3-24 points; runs of 0-40 (thorough: 60) events '
           'produced like a tuning backend with 1-5 parallel workers (feedback in proposal order or shuffled, '
           'last proposals in flight); EVERY crash point k in 0..N is checked inside a case. Non-trivial: some '
           'crash point has a proposal in flight and some has a reward; distinct by (algo, space, events).')
@@ -592,7 +592,7 @@ class C15(Prop):
   DIMS = [[3], [4], [5], [7], [2, 2], [3, 2], [2, 3], [2, 2, 2], [4, 3], [3, 3], [5, 4], [6, 4]]
 
   def generate(self, rng, tier):
-    n_cases = 100 if tier == 'quick' else 1000
+    n_cases = 100 if tier == 'quick' else 800
     for _ in range(n_cases):
       dims = rng.choice(self.DIMS)
       size = 1
@@ -604,7 +604,7 @@ class C15(Prop):
                           (1, rng.randint(31, 40))])
       else:
         n = rng.weighted([(1, rng.randint(0, 5)), (5, rng.randint(6, 16)), (3, rng.randint(17, 40)),
-                          (1, rng.randint(41, 80))])
+                          (1, rng.randint(41, 60))])
       yield {'algo': algo, 'dims': dims, 'events': self.gen_events(rng, n), 'm': 3}
 
   def search_cases(self, rng, tier, broken):
@@ -658,6 +658,8 @@ class C15(Prop):
 
   def nontrivial(self, case, out):
     """At least one crash point with a proposal still in flight and at least one with a reward."""
+    if 'model' not in out:
+      return False
     ks = out['model']['ks']
     return (any(any(h[1] is None for h in e['hist']) for e in ks)
             and any(any(h[1] is not None for h in e['hist']) for e in ks))
@@ -665,6 +667,8 @@ class C15(Prop):
   def describe(self, case, out):
     cfg = case['algo']
     h = ['algo:' + kind_name(cfg)]
+    if 'model' not in out:
+      return h + ['timeout']
     ev = case['events']
     h.append('events:%s' % ('0-5' if len(ev) <= 5 else '6-16' if len(ev) <= 16 else '17-40' if len(ev) <= 40 else '41+'))
     fed = [e[1] for e in ev if e[0] == 'f']
